@@ -9,7 +9,9 @@ Decided clauses:
         STALE _children written, derived views (_sources/_sensors/_collections) not refreshed
   E2  who-may-write: _parent/_children/_sources/_sensors/_collections are written only inside the editors
   E3  the self/ancestor cycle test precedes every parent assignment in `add`
-Not decided: order preservation of *_all flattenings; that `remove` finds what `add` listed (value-level).
+  E5  the four *_all getters are one traversal with a kind filter (or filters of children_all); flattenings assembled from the typed
+      direct views are a violation (order of interleaved children lost)
+Not decided: that `remove` finds what `add` listed (value-level).
 """
 from __future__ import annotations
 
@@ -115,6 +117,19 @@ class TreeClient(BaseClient):
             return {frozenset(w)}
         return {frozenset(w)}
 
+    def _excludes_cleared(self, v):
+        """does a new value of `_children` provably drop the children whose parent link was cleared?  Yes for the empty list and for a
+        filtering list comprehension (directly or through a local bound once to one); a positional slice / concatenation / call result
+        says nothing about *which* children remain"""
+        if isinstance(v, ast.List) and not v.elts:
+            return True
+        if isinstance(v, ast.ListComp):
+            return True
+        if isinstance(v, ast.Name):
+            defs = [a.value for a in ast.walk(self.fn) if isinstance(a, ast.Assign) and any(isinstance(t, ast.Name) and t.id == v.id for t in a.targets)]
+            return len(defs) >= 1 and all(isinstance(d, ast.ListComp) or (isinstance(d, ast.List) and not d.elts) for d in defs)
+        return False
+
     # ---- statements
     def transfer(self, s, S):
         out = set()
@@ -160,7 +175,7 @@ class TreeClient(BaseClient):
                     def f(S, t=t):
                         if isinstance(s, ast.AugAssign):
                             S = {x for x in S if x[0] != "PSNL"}
-                        else:
+                        elif self._excludes_cleared(s.value):
                             S = {x for x in S if x[0] != "LPC"}
                         S.add(("STALE", txt(t.value)))
                         return S
@@ -246,8 +261,45 @@ def find_fn(repo, cls, name, setter):
     return c, d[name]
 
 
+def e5(repo, res):
+    """E5 the typed flattenings agree with children_all: every `*_all` getter is the same traversal (one flattener called with the
+    receiver and a literal kind filter) or a filter over `self.children_all`.  A flattening assembled from the typed direct views
+    (`_sources`, `_sensors`, `_collections`) groups by type and cannot keep the interleaved order of the children."""
+    c = repo.cls("BaseCollection")
+    alls = {k: v for k, v in c.getters.items() if k.endswith("_all")}
+    res.require(len(alls) >= 4, f"anchor vanished: only {len(alls)} *_all getters on BaseCollection")
+    forms = {}
+    for name, fn in alls.items():
+        rets = [r for r in ast.walk(fn) if isinstance(r, ast.Return) and r.value is not None]
+        form = None
+        if len(rets) == 1 and isinstance(rets[0].value, ast.Call) and isinstance(rets[0].value.func, ast.Name) and rets[0].value.args \
+                and ast.unparse(rets[0].value.args[0]) == "self":
+            lits = [a for a in list(rets[0].value.args[1:]) + [k.value for k in rets[0].value.keywords] if isinstance(a, ast.Constant) and isinstance(a.value, str)]
+            form = ("flattener", rets[0].value.func.id, lits[0].value if lits else None)
+        elif any(isinstance(x, ast.Attribute) and x.attr == "children_all" for x in ast.walk(fn)):
+            form = ("filter of children_all", None, None)
+        typed_views = sorted({x.attr for x in ast.walk(fn) if isinstance(x, ast.Attribute) and isinstance(x.value, ast.Name) and x.value.id == "self"
+                              and x.attr.lstrip("_") in ("sources", "sensors", "collections")})
+        forms[name] = (form, typed_views, fn)
+    callees = {f[0][1] for f in forms.values() if f[0] and f[0][0] == "flattener"}
+    for name, (form, typed_views, fn) in forms.items():
+        kind = name[: -len("_all")]
+        ok = form is not None and not typed_views
+        if form and form[0] == "flattener":
+            ok = ok and len(callees) == 1 and form[2] is not None and (kind == "children" or kind in form[2].split("+"))
+        res.ob(f"E5:{name}", ok or (form is None and not typed_views), {"rule": "E5", "getter": name, "form": form[0] if form else "unrecognised", "filter": form[2] if form else None,
+                                                                       "typed_views_read": typed_views})
+        if typed_views:
+            res.add(Finding("E5", c.mod.rel, f"BaseCollection.{name} (getter)", fn, f"the flattening is assembled from the typed direct views {typed_views}: objects of this kind that sit "
+                            "behind a child collection come out before that collection's members, unlike in children_all", fn.lineno))
+        elif form is None:
+            res.undecided.append(f"E5: BaseCollection.{name} is neither the common flattener call nor a filter of children_all; its order is not decided")
+        elif not ok:
+            res.add(Finding("E5", c.mod.rel, f"BaseCollection.{name} (getter)", fn, f"uses {form[1]}({form[2]!r}): not the traversal/kind of the sibling *_all getters", fn.lineno))
+
+
 def run(repo, res, tier):
-    res.rules = ["E1 tree-edit typestate on all exits", "E2 who-may-write tree attributes", "E3 cycle test dominates parent store"]
+    res.rules = ["E1 tree-edit typestate on all exits", "E2 who-may-write tree attributes", "E3 cycle test dominates parent store", "E4 copy restores the parent link", "E5 typed flattenings share the traversal of children_all"]
     g = CallGraph(repo)
     raising = raising_functions(g)
     # method names that collide with container methods: only the repo meaning counts when the receiver is not a list
@@ -336,6 +388,7 @@ def run(repo, res, tier):
     if not ok:
         res.add(Finding("E3", c.mod.rel, "BaseCollection.add", "parent assignment not dominated by the self/ancestor cycle test",
                         f"guards={[norm(x.test) for x in guards]}", stores[0].lineno))
+    e5(repo, res)
     res.assumptions += ["container operations (list.remove/append) and isinstance do not raise on the paths examined",
                         "callee summaries: Collection.add (complete on normal return), Collection.remove (detaches on normal return) - "
                         "both are themselves editors checked by this rule"]
